@@ -1,4 +1,5 @@
 import CwMt.Proofs.Overlay
+import CwMt.Proofs.Client
 /-
   C06 — The transactional KV overlay behaves exactly like an ordered map over its base.
   Property theorems only; helper lemmas live in CwMt/Proofs/{Store,Overlay}.lean.
@@ -83,5 +84,105 @@ example : WF nvStack := by decide
 example : nvStack.depth = 3 := by decide
 example : nvStack.range none none .asc = [([0], [9]), ([0, 0], [7]), ([97], [5])] := by decide
 example : nvStack.range (some [255]) (some [0]) .desc = [] := by decide
+
+end CwMt.C06
+
+/-
+  Whole clients. Model: CwMt/Model/Client.lean — `Client R` is an interaction tree over the `Storage`
+  interface (get / range / set / remove on the storage handed to the code, getBase / rangeBase on the
+  read-only base `transactional` hands to its action, `sub` = `transactional`), `Client.runStack`
+  runs it on the overlay machinery, `Client.runPure base cur` on plain ordered maps where entering
+  `sub` copies the map, `some` keeps the copy and `none` keeps the original. Helper lemmas live in
+  CwMt/Proofs/Client.lean. `st.beneath` is the stack under the top layer (`Stack.discard`); a root
+  store has no separate base, so for code running directly on it base reads see the current map:
+  that is `Client.runPureRoot`. `Client.runSpec c st` picks the ordered-map run that belongs to `st`.
+-/
+namespace CwMt.C06
+open CwMt
+
+theorem runSpec_layer {R : Type} (c : Client R) (b : Stack) (l : Layer) :
+    c.runSpec (.layer b l) = c.runPure (abs (Stack.layer b l).beneath) (abs (.layer b l)) := rfl
+
+theorem runSpec_root {R : Type} (c : Client R) (m : Store Val) :
+    c.runSpec (.root m) = c.runPureRoot m := rfl
+
+/-- No client can tell the overlay machinery from copying a map: whatever a client does (reads,
+range scans, writes, base reads, nested `transactional`s that commit or fail, to any depth), on any
+well-formed stack, it gets the answers the ordered-map run gives and leaves a well-formed stack of
+the same depth that denotes the map the ordered-map run computes; and if it runs on a cache, all
+that lies beneath that cache is left exactly as it was. -/
+theorem client_refines {R : Type} (c : Client R) (st st' : Stack) (r : R) (h : WF st)
+    (hr : c.runStack st = (r, st')) :
+    WF st' ∧ st'.depth = st.depth ∧ c.runSpec st = (r, abs st') ∧
+      (0 < st.depth → st'.beneath = st.beneath) :=
+  Client.refines c st st' r h hr
+
+/-- `client_refines` spelled out for a client running on a cache `l` over `b`. -/
+theorem client_refines_layer {R : Type} (c : Client R) (b : Stack) (l : Layer) (st' : Stack) (r : R)
+    (h : WF (.layer b l)) (hr : c.runStack (.layer b l) = (r, st')) :
+    WF st' ∧ st'.depth = b.depth + 1 ∧ c.runPure (abs b) (abs (.layer b l)) = (r, abs st') ∧
+      st'.beneath = b :=
+  Client.refines_layer c b l st' r h hr
+
+/-- `client_refines` spelled out for a client running directly on a root store. -/
+theorem client_refines_root {R : Type} (c : Client R) (m : Store Val) (st' : Stack) (r : R)
+    (h : m.Sorted) (hr : c.runStack (.root m) = (r, st')) :
+    ∃ m', st' = .root m' ∧ m'.Sorted ∧ c.runPureRoot m = (r, m') :=
+  Client.refines_root c m st' r h hr
+
+/-- `transactional(root, body)` then `cont`, on a root store `m`: the continuation sees the root
+store `Stack.root m'` with `m'` the map the ordered-map run of the body computes from a copy of `m`
+if the body answered `some`, and `Stack.root m` itself if the body answered `none`. -/
+theorem transactional_at_root {R X : Type} (body : Client (Option X)) (cont : Option X → Client R)
+    (m : Store Val) (hm : m.Sorted) :
+    (Client.sub body cont).runStack (.root m) =
+      match body.runPure m m with
+      | (some x, m') => (cont (some x)).runStack (.root m')
+      | (none, _) => (cont none).runStack (.root m) :=
+  Client.sub_at_root body cont m hm
+
+/-- Atomicity of `transactional` on the root store, for every body, whatever it nests: all of the
+body's effects (as computed on plain maps) or none. -/
+theorem transactional_atomic_at_root {X : Type} (body : Client (Option X)) (m : Store Val)
+    (hm : m.Sorted) :
+    (Client.sub body Client.done).runStack (.root m) =
+      match body.runPure m m with
+      | (some x, m') => (some x, .root m')
+      | (none, _) => (none, .root m) :=
+  Client.transactional_atomic_at_root body m hm
+
+/-! ### non-vacuity: an outer `transactional` that overwrites a root key and deletes another, an
+inner `transactional` that writes twice, reads its base and then fails, and afterwards a base read
+(the root, unchanged while the cache lives), reads of the cache and a range scan of the base -/
+
+def nvClient : Client (Option (Option Val × Option Val × Option Val × Option Val × List (Key × Val))) :=
+  .sub
+    (.set [1] [10] <| .remove [3] <|
+      .sub (X := Unit)
+        (.set [2] [20] <| .set [1] [11] <| .getBase [1] fun b =>
+          if b = some [10] then .done none else .done (some ()))
+        fun inner =>
+          .getBase [1] fun b => .get [1] fun c => .get [2] fun d => .get [3] fun e =>
+          .rangeBase none none .desc fun rb =>
+          .done (if inner.isNone then some (b, c, d, e, rb) else none))
+    .done
+
+def nvRoot : Store Val := [([1], [1]), ([3], [3])]
+
+example : WF (.root nvRoot) := by decide
+example : nvClient.runStack (.root nvRoot) =
+    (some (some [1], some [10], none, none, [([3], [3]), ([1], [1])]), .root [([1], [10])]) := rfl
+example : nvClient.runPureRoot nvRoot =
+    (some (some [1], some [10], none, none, [([3], [3]), ([1], [1])]), [([1], [10])]) := rfl
+/-- on a cache: the failing inner `transactional` and the writes leave the root beneath untouched -/
+example : ((Client.set [1] [10] <| .sub (X := Unit) (.set [2] [20] <| .done none) fun _ =>
+      .getBase [1] fun b => .get [2] fun d => .done (b, d)).runStack (Stack.root nvRoot).push).2.beneath
+    = .root nvRoot := rfl
+example : (Client.set [1] [10] <| .sub (X := Unit) (.set [2] [20] <| .done none) fun _ =>
+      .getBase [1] fun b => .get [2] fun d => .done (b, d)).runPure nvRoot nvRoot
+    = ((some [1], none), [([1], [10]), ([3], [3])]) := rfl
+/-- the same outer body failing at the end leaves the root store as it was -/
+example : (Client.sub (X := Unit) (.set [1] [10] <| .remove [3] <| .done none) Client.done).runStack
+    (.root nvRoot) = (none, .root nvRoot) := rfl
 
 end CwMt.C06
